@@ -185,6 +185,10 @@ func startWorker(o PoolOpts) (*worker, error) {
 		cmd = exec.Command(self, os.Args[1:]...)
 	}
 	cmd.Env = append(os.Environ(), "VERIF_WORKER=1", "GOMAXPROCS=1")
+	if o.MemLimitKB > 0 && os.Getenv("GOMEMLIMIT") == "" {
+		// the collector works harder before the address-space limit is reached (the limit counts more than the heap)
+		cmd.Env = append(cmd.Env, fmt.Sprintf("GOMEMLIMIT=%dKiB", o.MemLimitKB/2))
+	}
 	cmd.Env = append(cmd.Env, o.Env...)
 	stdin, err := cmd.StdinPipe()
 	if err != nil {
